@@ -1,0 +1,86 @@
+//go:build verif
+
+// Contracts for package parser, read by /verif/govc (comment-only file; no code).
+package parser
+
+// Parser representation invariant: the lexer it reads from is in a consistent state.
+//@ pred PInv(p *Parser) = p.l != nil && ValidUTF8(p.l.input) && LexInv(p.l)
+
+// ---- small pure helpers (C02, C09, C13) ----
+
+//@ pred NegOp(op string) = (op == token.EQ ? token.NEQ : (op == token.NEQ ? token.EQ : (op == token.LT ? token.GTE : (op == token.GT ? token.LTE
+//@    : (op == token.LTE ? token.GT : (op == token.GTE ? token.LT : (op == token.AND ? token.OR : (op == token.OR ? token.AND : op))))))))
+
+//@ func getNegatedBooleanOperator
+//@   ensures [C02:negop] result == NegOp(operator)
+//@ end
+
+//@ pred TermSuffix(t string) = ((t == "" || t == "braille") ? "$" : "\\0")
+//@ pred HasTermSuffix(t string) = t == "" || t == "braille" || t == "ascii"
+//@ pred Terminated(text string, t string) = (HasTermSuffix(t) ? (hasSuffix(text, TermSuffix(t)) ? text : sconcat(text, TermSuffix(t))) : text)
+
+//@ func (p *Parser) formatTextTerminator
+//@   ensures [C09:term] result == Terminated(text, strType)
+//@   ensures [C09:term-once] HasTermSuffix(strType) ==> hasSuffix(result, TermSuffix(strType))
+//@ end
+
+//@ func (p *Parser) tryReplaceWithConstant
+//@   ensures [C13:subst] result == (indom(p.constants, value) ? p.constants[value] : value)
+//@ end
+
+// ---- break / continue scope stacks (C20) ----
+
+//@ func (p *Parser) pushBreakStack
+//@   modifies p.breakStack
+//@   ensures [C20:stack] p.breakStack == snoc(old(p.breakStack), statement)
+//@ end
+//@ func (p *Parser) popBreakStack
+//@   requires len(p.breakStack) >= 1
+//@   modifies p.breakStack
+//@   ensures [C20:stack] len(p.breakStack) == len(old(p.breakStack)) - 1 && (forall k int :: {p.breakStack[k]} (0 <= k && k < len(p.breakStack)) ==> p.breakStack[k] == old(p.breakStack)[k])
+//@ end
+//@ func (p *Parser) peekBreakStack
+//@   ensures [C20:stack] result == (len(p.breakStack) == 0 ? nil : p.breakStack[len(p.breakStack) - 1])
+//@ end
+//@ func (p *Parser) pushContinueStack
+//@   modifies p.continueStack
+//@   ensures [C20:stack] p.continueStack == snoc(old(p.continueStack), statement)
+//@ end
+//@ func (p *Parser) popContinueStack
+//@   requires len(p.continueStack) >= 1
+//@   modifies p.continueStack
+//@   ensures [C20:stack] len(p.continueStack) == len(old(p.continueStack)) - 1 && (forall k int :: {p.continueStack[k]} (0 <= k && k < len(p.continueStack)) ==> p.continueStack[k] == old(p.continueStack)[k])
+//@ end
+//@ func (p *Parser) peekContinueStack
+//@   ensures [C20:stack] result == (len(p.continueStack) == 0 ? nil : p.continueStack[len(p.continueStack) - 1])
+//@ end
+
+// ---- token window (C18, C20) ----
+
+//@ func (p *Parser) nextToken
+//@   requires PInv(p)
+//@   modifies p.curToken, p.peekToken, p.peek2Token, p.peek3Token, p.peek4Token, fields(p.l)
+//@   ensures [C18:window] PInv(p) && p.l.input == old(p.l.input)
+//@   ensures [C18,C20:shift] p.curToken == old(p.peekToken) && p.peekToken == old(p.peek2Token) && p.peek2Token == old(p.peek3Token) && p.peek3Token == old(p.peek4Token)
+//@ end
+
+//@ func (p *Parser) expectPeek
+//@   requires PInv(p)
+//@   modifies p.curToken, p.peekToken, p.peek2Token, p.peek3Token, p.peek4Token, fields(p.l)
+//@   ensures [C18:window] PInv(p) && p.l.input == old(p.l.input)
+//@   ensures [C18,C20:expect] (result == nil) == (old(p.peekToken.Type) == expectedType)
+//@   ensures [C18,C20:expect-shift] result == nil ==> (p.curToken == old(p.peekToken) && p.peekToken == old(p.peek2Token) && p.peek2Token == old(p.peek3Token) && p.peek3Token == old(p.peek4Token))
+//@   ensures [C18:expect-stay] result != nil ==> (p.curToken == old(p.curToken) && p.peekToken == old(p.peekToken) && p.peek2Token == old(p.peek2Token) && boxis(result, ParseError) && result.LineNumberStart == p.peekToken.LineNumber && result.LineNumberEnd == p.peekToken.EndLineNumber)
+//@ end
+
+// ---- scope modifiers (C15) ----
+
+//@ func (p *Parser) parseScopeModifier
+//@   requires PInv(p)
+//@   modifies p.curToken, p.peekToken, p.peek2Token, p.peek3Token, p.peek4Token, fields(p.l)
+//@   ensures [C18:window] PInv(p) && p.l.input == old(p.l.input)
+//@   ensures [C15:mod-none] old(p.peekToken.Type) != token.LPAREN ==> (result0 == defaultScope && result1 == nil && p.curToken == old(p.curToken) && p.peekToken == old(p.peekToken))
+//@   ensures [C15:mod-explicit] (old(p.peekToken.Type) == token.LPAREN && (old(p.peek2Token.Type) == token.GLOBAL || old(p.peek2Token.Type) == token.LOCAL) && old(p.peek3Token.Type) == token.RPAREN)
+//@        ==> (result1 == nil && result0 == old(p.peek2Token.Type) && p.curToken == old(p.peek3Token) && p.peekToken == old(p.peek4Token))
+//@   ensures [C15:mod-error] (old(p.peekToken.Type) == token.LPAREN && !((old(p.peek2Token.Type) == token.GLOBAL || old(p.peek2Token.Type) == token.LOCAL) && old(p.peek3Token.Type) == token.RPAREN)) ==> result1 != nil
+//@ end
